@@ -2,7 +2,7 @@ CLAIM = "wip"
 ASSUMPTIONS = []
 BITS = {"lib/bit_stream_reader.c": ["peek_bits", "read_bits", "read_bit"]}
 CMD2 = dict(BITS, **{"lib/tree_decode.c": ["read_from_tree"], "lib/pm2_decoder.c": ["rebuild_tree"], "lib/pma_common.c": ["find_in_history_list", "update_history_list"]})
-PM1U = {"bs_ref.0": 14, "pma_ref_rows.0": 8, "pm1_ref_copy_type.0": 18, "pm1_ref_dist_bits.0": 10, "pm1_ref_class.0": 7, "read_byte_decode_index.0": 6}
+PM1U = {"bs_ref.0": 19, "pma_ref_rows.0": 8, "pm1_ref_copy_type.0": 18, "pm1_ref_dist_bits.0": 10, "pm1_ref_class.0": 7, "read_byte_decode_index.0": 6}
 HARNESSES = [
     dict(name="mtf.init", src="C04/mtf.c", entry="harness_init", unwind=257, units=["lib/pma_common.c:init_history_list"], timeout=120, bounds="concrete, all 256 ranks"),
     dict(name="mtf.update", src="C04/mtf.c", entry="harness_update", unwind=9, backend="cadical", units=["lib/pma_common.c:update_history_list"], timeout=200, bounds="256"),
@@ -23,7 +23,7 @@ HARNESSES = [
          units=["lib/pm2_decoder.c:lha_pm2_decoder_init,lha_pm2_decoder_read,rebuild_tree"], timeout=200, bounds="x"),
     dict(name="pm2.cmd.byte", src="C04/pm2_cmd.c", entry="harness_byte", defines=["BYTE_HARNESS"], rename_defs=CMD2, unwind=5, unwindset={"bs_ref.0": 8}, flags=["--arrays-uf-always"],
          units=["lib/pm2_decoder.c:lha_pm2_decoder_read,read_single_byte,output_byte"], timeout=200, bounds="x"),
-    dict(name="pm2.cmd.copy", src="C04/pm2_cmd.c", entry="harness_copy", defines=["COPY_HARNESS"], rename_defs=CMD2, unwind=5, unwindset={"bs_ref.0": 14, "copy_from_history.0": 17},
+    dict(name="pm2.cmd.copy", src="C04/pm2_cmd.c", entry="harness_copy", defines=["COPY_HARNESS", "ALIGN0"], rename_defs=CMD2, unwind=5, unwindset={"bs_ref.0": 14, "copy_from_history.0": 17},
          flags=["--arrays-uf-always"], units=["lib/pm2_decoder.c:lha_pm2_decoder_read,copy_from_history,history_get_count,history_get_offset,output_byte"], timeout=300, mem_gb=4, bounds="x"),
     dict(name="pm2.cmd.fields", src="C04/pm2_cmd.c", entry="harness_fields", defines=["FIELDS_HARNESS"], rename_defs=CMD2, unwind=5, unwindset={"bs_ref.0": 14},
          units=["lib/pm2_decoder.c:history_get_count,history_get_offset", "lib/pma_common.c:decode_variable_length"], timeout=200, bounds="x"),
@@ -33,19 +33,24 @@ HARNESSES = [
          units=["lib/pm2_decoder.c:lha_pm2_decoder_read,copy_from_history,history_get_count,history_get_offset,output_byte"], timeout=300, mem_gb=4, bounds="x")
     for c, lx, ln, pos, t, v in [(15, 0, 17, 0, 0, 0), (16, 7, 32, 8190, 7, 4095), (17, 20, 53, 100, 3, 44), (18, 63, 128, 5, 1, 0), (19, 0, 129, 8000, 5, 17), (19, 127, 256, 8100, 0, 2), (20, 0, 256, 4096, 0, 0)]
 ] + [
-    dict(name="pm1.cmd.fields", src="C04/pm1_cmd.c", entry="harness_fields", defines=["FIELDS_HARNESS"], backend="cadical", rename_defs=dict(BITS, **{"lib/pma_common.c": ["find_in_history_list"]}),
-         unwind=3, unwindset=dict(PM1U, **{"load_bits.0": 9}),
+    dict(name="pm1.cmd.fields", src="C04/pm1_cmd.c", entry="harness_fields", defines=["FIELDS_HARNESS", "BS_N=11"], backend="cadical", rename_defs=dict(BITS, **{"lib/pma_common.c": ["find_in_history_list"]}),
+         unwind=3, unwindset=dict(PM1U, **{"load_bits.0": 12}),
          units=["lib/pm1_decoder.c:read_copy_type_range,read_copy_byte_count,read_byte_block_count,read_byte_decode_index,read_byte"], timeout=300, bounds="x"),
-    dict(name="pm1.cmd.copy", src="C04/pm1_cmd.c", entry="harness_copy", defines=["COPY_HARNESS"], backend="cadical", rename_defs=dict(BITS, **{"lib/pma_common.c": ["update_history_list"]}),
-         unwind=3, unwindset=dict(PM1U, **{"load_bits.0": 9, "read_copy_command.0": 9}), flags=["--arrays-uf-always"],
+    dict(name="pm1.cmd.copy", src="C04/pm1_cmd.c", entry="harness_copy", defines=["COPY_HARNESS", "BS_N=9", "ALIGN0"], backend="cadical", rename_defs=dict(BITS, **{"lib/pma_common.c": ["update_history_list"]}),
+         unwind=3, unwindset=dict(PM1U, **{"load_bits.0": 10, "read_copy_command.0": 9}), flags=["--arrays-uf-always"],
          units=["lib/pm1_decoder.c:read_copy_command,outputted_byte"], timeout=300, mem_gb=4, bounds="x"),
     dict(name="pm1.cmd.outb", src="C04/pm1_cmd.c", entry="harness_outb", defines=["OUTB_HARNESS"], rename_defs=dict(BITS, **{"lib/pma_common.c": ["update_history_list"]}),
          unwind=3, flags=["--arrays-uf-always"], units=["lib/pm1_decoder.c:outputted_byte"], timeout=120, bounds="x"),
-    dict(name="pm1.cmd.read", src="C04/pm1_cmd.c", entry="harness_read", defines=["READ_HARNESS", "BS_N=9", "ALIGN0"], backend="cadical",
+    dict(name="pm1.cmd.read", src="C04/pm1_cmd.c", entry="harness_read", defines=["READ_HARNESS", "BS_N=12"], backend="cadical",
          rename_defs=dict(BITS, **{"lib/pm1_decoder.c": ["read_byte", "outputted_byte", "read_copy_command"]}),
-         unwind=3, unwindset=dict(PM1U, **{"load_bits.0": 10, "read_byte_block.0": 5, "harness_read.0": 5, "harness_read.1": 5}),
+         unwind=3, unwindset=dict(PM1U, **{"load_bits.0": 13, "read_byte_block.0": 5, "harness_read.0": 5, "harness_read.1": 5}),
          units=["lib/pm1_decoder.c:lha_pm1_read,read_start_header,read_byte_block,read_byte_block_count"], timeout=300, bounds="x"),
-    dict(name="pm1.cmd.block", src="C04/pm1_cmd.c", entry="harness_block", defines=["BLOCK_HARNESS"], backend="cadical", rename_defs=dict(BITS, **{"lib/pm1_decoder.c": ["read_byte", "outputted_byte", "read_copy_command"]}),
-         unwind=3, unwindset=dict(PM1U, **{"load_bits.0": 9, "read_byte_block.0": 218}),
+    dict(name="pm1.cmd.block", src="C04/pm1_cmd.c", entry="harness_block", defines=["BLOCK_HARNESS", "BS_N=6"], backend="cadical", rename_defs=dict(BITS, **{"lib/pm1_decoder.c": ["read_byte", "outputted_byte", "read_copy_command"]}),
+         unwind=3, unwindset=dict(PM1U, **{"load_bits.0": 7, "read_byte_block.0": 218}),
          units=["lib/pm1_decoder.c:read_byte_block,read_byte_block_count"], timeout=300, bounds="x"),
+    dict(name="pm1.eof.wrapper", src="C04/pm1_eof.c", entry="harness_wrapper", defines=["WRAPPER_HARNESS"], unwind=9, unwindset={"memset.0": 10},
+         units=["lib/pm1_decoder.c:read_callback_wrapper"], timeout=120, bounds="x"),
+    dict(name="pm1.eof.bits", src="C04/pm1_eof.c", entry="harness_bits", defines=["BITS_HARNESS"], unwind=6,
+         unwindset={"memset.0": 17000, "init_history_list.0": 257, "harness_bits.0": 11, "harness_bits.1": 7, "ref_bits.0": 14, "cb_read.0": 5, "peek_bits.0": 6, "peek_bits.1": 5},
+         units=["lib/pm1_decoder.c:read_callback_wrapper,lha_pm1_init", "lib/bit_stream_reader.c"], timeout=300, bounds="x"),
 ]
